@@ -78,7 +78,17 @@ def classes_of(results):
     return s
 
 
-def install_summary(I, prog, classes, runtime):
+def kill_reason_of(results):
+    """the exit reason every killed-class iteration reports (one value for all of them), else None"""
+    from exec import val_key
+    vals = {}
+    for r in results:
+        if r['klass'] is not None and r['klass'][0] == 'killed' and 'loop_result' in r:
+            vals[val_key(r['loop_result']['exit_reason'])] = r['loop_result']['exit_reason']
+    return list(vals.values())[0] if len(vals) == 1 else None
+
+
+def install_summary(I, prog, classes, runtime, kill_reason=None):
     """replace process_message by a future that completes with any of the verified outcome classes"""
     def pm(I, st, f, args, fr):
         return I.ret(st, Opaque('pmfut', info={'n': fresh_id()}))
@@ -113,7 +123,7 @@ def install_summary(I, prog, classes, runtime):
                     ob = dict(s2.objs['sigq'])
                     ob['st'] = z3.BitVecVal(2, 2)
                     s2.objs['sigq'] = ob
-                outs.append(Outcome(s2, 'ret', models_std.ready(models_std.ok(loop_result(prog, I, True, models_std.some(Opaque('signal-string')), True)))))
+                outs.append(Outcome(s2, 'ret', models_std.ready(models_std.ok(loop_result(prog, I, True, kill_reason if kill_reason is not None else models_std.some(Opaque('signal-string')), True)))))
             elif kind == 'err':
                 if cb:
                     s2.emit('CB', 'end', cb, uid, 'err')
@@ -147,11 +157,11 @@ def install_summary(I, prog, classes, runtime):
     I.type_drops['ActorPortSet'] = lambda I, st, v, ref: ports_drop(I, st, None, None, None)
 
 
-def explore_lifecycle(prog, classes, runtime='ActorRuntime', poll_budget=1, with_supervisor=True, sup_status=None, start_polls=3, task_polls=6, cancel_points=False):
+def explore_lifecycle(prog, classes, runtime='ActorRuntime', poll_budget=1, with_supervisor=True, sup_status=None, start_polls=3, task_polls=6, cancel_points=False, kill_reason=None):
     """returns (I, actor, results): results = list of dict(phase, state, kind, value)"""
     I = ar.new_interp(prog, poll_budget, runtime)
     I.max_paths = 400000
-    install_summary(I, prog, classes, runtime)
+    install_summary(I, prog, classes, runtime, kill_reason)
     st = State()
     a = ar.Actor(prog, I, st, with_supervisor, 2)
     if with_supervisor and sup_status is None:
